@@ -66,7 +66,14 @@ func (f *failoverStatus) report(ctx context.Context, witness string) *status.Sta
 			f.timer.Stop()
 		}
 		f.mu.Unlock()
-		return f.failover.Failover(ctx)
+		st := f.failover.Failover(ctx)
+		// The failover attempt ends this round of reports, whether or not a
+		// new leader could be selected. The expiration timer has been stopped,
+		// so expire the failover here. Otherwise the witnesses of this round
+		// would never be forgotten and would count towards the quorum of a
+		// later round, e.g. against the newly selected leader.
+		f.failover.OnExpired()
+		return st
 	}
 
 	if f.timer != nil {
